@@ -305,8 +305,9 @@ def run(ck, ctx):
         for k, (wfi, wchain, w0, w1, _wv, _wpc) in wrecs:
             caller = wchain[-2][1]
             if caller is None or is_writer(caller.qualname) or caller.qualname == "compute" or \
-                    CG.in_decorators(caller):
-                continue            # R17.4 covers the storing wrapper; compute() itself is not a stage
+                    caller.qualname.startswith("compute.<locals>.") or CG.in_decorators(caller):
+                continue            # R17.4 covers the storing wrapper; compute() itself - with the helper closures it
+                #                     is divided into - is the orchestrator, not a stage
             # the stage invocation that made this writer call: the record whose chain is the writer's minus the last
             stage = next((r_ for r_ in recs[k:] if r_[1] == wchain[:-1]), None)
             if stage is None:
